@@ -5,6 +5,7 @@ mod e_asm;
 mod vmrun;
 mod e_vm;
 mod e_graph;
+mod e_types;
 
 fn main() {
     // panics of the implementation are caught and reported as outcomes; keep stderr quiet
@@ -16,6 +17,7 @@ fn main() {
         "mapped" => e_asm::run_mapped(&a),
         "vm" => e_vm::run(&a),
         "graph" => e_graph::run(&a),
+        "types" => e_types::run(&a),
         other => { eprintln!("unknown engine {other}"); std::process::exit(2); }
     }
 }
